@@ -94,6 +94,25 @@ type Protect struct {
 	lockIdx  int
 }
 
+// WriteOnly: `writeonly[Cxx] pkg.Type.field by fn [, fn ...]`: the field is assigned only in the named
+// functions (package-wide frame condition, decided by a scan of every store in the own packages).
+type WriteOnly struct {
+	Field string
+	By    map[string]bool
+	Tags  []string
+	Text  string
+}
+
+// CallGuard: `callguard[Cxx] <expr> : <external function> [, ...]`: every call of one of the named
+// external functions (or `iface:pkg.Iface.method`) made by a function under contract must satisfy
+// expr at the call site, e.g. "not on the accept loop" for calls that wait for a client.
+type CallGuard struct {
+	Expr  ast.Expr
+	Text  string
+	Tags  []string
+	Names map[string]bool
+}
+
 type ContractDB struct {
 	funcs    map[string]*Contract
 	pures    map[string]*PureFn
@@ -105,6 +124,8 @@ type ContractDB struct {
 	protects map[string]string
 	wgorders map[string]*Clause
 	protectList []*Protect
+	writeonly   []*WriteOnly
+	callguards  []*CallGuard
 	protectH    map[string]*Protect // by heap name, resolved lazily
 	nonnull  []string // heap designators whose loaded values are never nil (trusted type invariants)
 	nonnullH map[string]bool
@@ -294,7 +315,7 @@ func (db *ContractDB) loadFile(path, pkg string) error {
 	// join continuation lines: a line that does not start with a keyword
 	// continues the previous one
 	topKw := map[string]bool{"func": true, "loop": true, "pure": true, "abstract": true, "ghost": true, "method": true, "functype": true,
-		"extern": true, "lockinv": true, "protect": true, "axiom": true, "lemma": true, "wgres": true, "wgorder": true, "nonnull": true, "predicate": true}
+		"extern": true, "lockinv": true, "protect": true, "writeonly": true, "callguard": true, "axiom": true, "lemma": true, "wgres": true, "wgorder": true, "nonnull": true, "predicate": true}
 	var joined []string
 	for _, l := range lines {
 		w := strings.Fields(l)[0]
@@ -409,6 +430,51 @@ func (db *ContractDB) loadFile(path, pkg string) error {
 			}
 			db.protectList = append(db.protectList, pr)
 			db.scan = append(db.scan, "protect "+rest)
+		case "callguard":
+			cg := &CallGuard{Names: map[string]bool{}}
+			r := rest
+			if strings.HasPrefix(r, "[") {
+				j := strings.Index(r, "]")
+				cg.Tags = strings.Split(r[1:j], ",")
+				r = strings.TrimSpace(r[j+1:])
+			}
+			i := strings.Index(r, " : ")
+			if i < 0 {
+				return fmt.Errorf("%s: callguard: expected `<expr> : <function>, ...`: %q", path, l)
+			}
+			ex, err := parseSpecExpr(strings.TrimSpace(r[:i]))
+			if err != nil {
+				return fmt.Errorf("%s: callguard: %v", path, err)
+			}
+			cg.Expr, cg.Text = ex, strings.TrimSpace(r[:i])
+			for _, x := range strings.Split(r[i+3:], ",") {
+				if x = strings.TrimSpace(x); x != "" {
+					cg.Names[x] = true
+				}
+			}
+			db.callguards = append(db.callguards, cg)
+			db.scan = append(db.scan, "callguard "+r)
+		case "writeonly":
+			// writeonly[Cxx,...] <pkg>.<Type>.<field> by <function> [, <function> ...]
+			wo := &WriteOnly{By: map[string]bool{}}
+			r := rest
+			if strings.HasPrefix(r, "[") {
+				j := strings.Index(r, "]")
+				wo.Tags = strings.Split(r[1:j], ",")
+				r = strings.TrimSpace(r[j+1:])
+			}
+			f := strings.Fields(r)
+			if len(f) < 3 || f[1] != "by" {
+				return fmt.Errorf("%s: writeonly: expected `<pkg>.<Type>.<field> by <function>...`: %q", path, l)
+			}
+			wo.Field, wo.Text = f[0], r
+			for _, x := range f[2:] {
+				if x = strings.TrimSuffix(x, ","); x != "" {
+					wo.By[x] = true
+				}
+			}
+			db.writeonly = append(db.writeonly, wo)
+			db.scan = append(db.scan, "writeonly "+r)
 		case "axiom":
 			db.scan = append(db.scan, "axiom "+rest)
 		default:
